@@ -112,7 +112,8 @@ class Result:
 
 
 def explore(sysm, *, state_cap=200000, depth_cap=None, keep_states=False, max_viol=40,
-            validate_replays=True, replay_cap=None, workers=None, stop_on_violation_count=2000):
+            validate_replays=True, replay_cap=None, workers=None, stop_on_violation_count=2000,
+            stop_at_first_violating_level=True):
     global _SYS
     t0 = time.time()
     res = Result()
@@ -212,6 +213,11 @@ def explore(sysm, *, state_cap=200000, depth_cap=None, keep_states=False, max_vi
                 break
             if res.nviol >= stop_on_violation_count:
                 res.capped = f"violations>={stop_on_violation_count}"
+                break
+            if res.nviol and stop_at_first_violating_level and frontier:
+                # BFS: the shortest counterexamples are already in hand; a broken implementation can make
+                # the space explode (e.g. leaking pruning tries), so do not dig below the first violating level
+                res.capped = f"stopped after the first level with violations (depth {depth})"
                 break
         # state invariants for a frontier left unexpanded by a cap
         if frontier and res.capped:
